@@ -185,23 +185,29 @@ func deep(ptr any) string {
 // ---------------------------------------------------------------------------
 // slice regions
 
-// A region is the backing memory of one slice, with the path under which it was reached.
+// A region is the backing memory of one slice up to its CAPACITY (an append through the slice writes there), with the
+// path under which it was reached.
 type region struct {
-	lo, hi  uintptr
-	path    string
-	viaPtr  bool // the path crosses a pointer or an interface (memory that a struct copy shares by construction)
+	lo, hi uintptr
+	path   string
+	viaPtr bool // reached through memory that two values share by construction: a pointee both hold a pointer to, or the
+	// immutable box of an interface value (a struct copy shares these; nothing in the library writes through them)
+	box     bool // ... the box of an interface value in particular
 	elem    reflect.Type
-	ptrLike bool // not a slice: the pointee of a pointer-typed field
+	ptrLike bool    // not a slice: the pointee of a pointer-typed field
+	n, c    int     // length and capacity (slices)
+	hdr     uintptr // address of the slice header, when it has one (the same slice reached on two paths is one slice)
 }
 
 type regionWalker struct {
-	out  []region
-	seen map[visitKey]bool
-	only func(reflect.Type) bool // nil: every slice
-	ptrs bool                    // also record pointees
+	out    []region
+	seen   map[visitKey]bool
+	only   func(reflect.Type) bool // nil: every slice
+	ptrs   bool                    // also record pointees
+	shared map[uintptr]bool        // pointees that the value compared with holds too (nil: none)
 }
 
-func (rw *regionWalker) walk(v reflect.Value, path string, via bool) {
+func (rw *regionWalker) walk(v reflect.Value, path string, via, box bool) {
 	switch v.Kind() {
 	case reflect.Slice:
 		if v.IsNil() || v.Cap() == 0 {
@@ -210,19 +216,23 @@ func (rw *regionWalker) walk(v reflect.Value, path string, via bool) {
 		et := v.Type().Elem()
 		if rw.only == nil || rw.only(et) {
 			lo := uintptr(v.UnsafePointer())
+			var hdr uintptr
+			if v.CanAddr() {
+				hdr = v.Addr().Pointer()
+			}
 			if sz := et.Size(); sz > 0 {
-				rw.out = append(rw.out, region{lo: lo, hi: lo + uintptr(v.Cap())*sz, path: path, viaPtr: via, elem: et})
+				rw.out = append(rw.out, region{lo: lo, hi: lo + uintptr(v.Cap())*sz, path: path, viaPtr: via, box: box, elem: et, n: v.Len(), c: v.Cap(), hdr: hdr})
 			}
 		}
 		if hasIndirection(et) {
 			for i := 0; i < v.Len(); i++ {
-				rw.walk(v.Index(i), fmt.Sprintf("%s[%d]", path, i), via)
+				rw.walk(v.Index(i), fmt.Sprintf("%s[%d]", path, i), via, box)
 			}
 		}
 	case reflect.Array:
 		if hasIndirection(v.Type().Elem()) {
 			for i := 0; i < v.Len(); i++ {
-				rw.walk(v.Index(i), fmt.Sprintf("%s[%d]", path, i), via)
+				rw.walk(v.Index(i), fmt.Sprintf("%s[%d]", path, i), via, box)
 			}
 		}
 	case reflect.Ptr:
@@ -234,25 +244,32 @@ func (rw *regionWalker) walk(v reflect.Value, path string, via bool) {
 			return
 		}
 		rw.seen[k] = true
+		lo := uintptr(v.UnsafePointer())
 		if rw.ptrs {
-			lo := uintptr(v.UnsafePointer())
 			if sz := v.Type().Elem().Size(); sz > 0 {
-				rw.out = append(rw.out, region{lo: lo, hi: lo + sz, path: path, viaPtr: via, elem: v.Type().Elem(), ptrLike: true})
+				rw.out = append(rw.out, region{lo: lo, hi: lo + sz, path: path, viaPtr: via, box: box, elem: v.Type().Elem(), ptrLike: true})
 			}
 		}
-		rw.walk(v.Elem(), path+"->", true)
+		// what lies behind a pointee that both values point to is shared by construction; behind a pointee of its own a
+		// value is expected to own its memory (DeepCopy gives a storage proof resolution a struct of its own)
+		rw.walk(v.Elem(), path+"->", via || rw.shared[lo], box)
 	case reflect.Interface:
 		if v.IsNil() {
 			return
 		}
-		rw.walk(v.Elem(), path+".("+v.Elem().Type().String()+")", true)
+		e := v.Elem()
+		if e.Kind() == reflect.Ptr {
+			rw.walk(e, path+".("+e.Type().String()+")", via, box)
+		} else {
+			rw.walk(e, path+".("+e.Type().String()+")", true, true)
+		}
 	case reflect.Struct:
 		if v.Type() == timeType {
 			return
 		}
 		for i := 0; i < v.NumField(); i++ {
 			if hasIndirection(v.Type().Field(i).Type) {
-				rw.walk(v.Field(i), path+"."+v.Type().Field(i).Name, via)
+				rw.walk(v.Field(i), path+"."+v.Type().Field(i).Name, via, box)
 			}
 		}
 	case reflect.Map:
@@ -261,7 +278,7 @@ func (rw *regionWalker) walk(v reflect.Value, path string, via bool) {
 		}
 		it := v.MapRange()
 		for it.Next() {
-			rw.walk(it.Value(), path+"[k]", true)
+			rw.walk(it.Value(), path+"[k]", true, box)
 		}
 	}
 }
@@ -311,9 +328,50 @@ func hasIndirection0(t reflect.Type, busy map[reflect.Type]bool) bool {
 
 // regions lists the slice backing arrays reachable from *ptr (only slices whose element type satisfies only).
 func regions(ptr any, only func(reflect.Type) bool, ptrs bool) []region {
-	rw := &regionWalker{seen: map[visitKey]bool{}, only: only, ptrs: ptrs}
-	rw.walk(reflect.ValueOf(ptr).Elem(), "", false)
+	return regionsShared(ptr, only, ptrs, nil)
+}
+
+func regionsShared(ptr any, only func(reflect.Type) bool, ptrs bool, shared map[uintptr]bool) []region {
+	rw := &regionWalker{seen: map[visitKey]bool{}, only: only, ptrs: ptrs, shared: shared}
+	rw.walk(reflect.ValueOf(ptr).Elem(), "", false, false)
 	return rw.out
+}
+
+// sharedPointees lists the pointees that both *a and *b hold a pointer to.
+func sharedPointees(a, b any) map[uintptr]bool {
+	in := map[uintptr]bool{}
+	for _, r := range regions(a, func(reflect.Type) bool { return false }, true) {
+		in[r.lo] = true
+	}
+	out := map[uintptr]bool{}
+	for _, r := range regions(b, func(reflect.Type) bool { return false }, true) {
+		if in[r.lo] {
+			out[r.lo] = true
+		}
+	}
+	return out
+}
+
+// selfOverlaps returns the pairs of DISTINCT slices among rs whose memory up to capacity overlaps: an append (or a
+// write) through one is visible through the other.
+func selfOverlaps(rs []region) [][2]region {
+	var ss []region
+	for _, r := range rs {
+		if !r.ptrLike {
+			ss = append(ss, r)
+		}
+	}
+	sort.SliceStable(ss, func(i, j int) bool { return ss[i].lo < ss[j].lo })
+	var out [][2]region
+	for i := range ss {
+		for j := i + 1; j < len(ss) && ss[j].lo < ss[i].hi; j++ {
+			if ss[i].hdr != 0 && ss[i].hdr == ss[j].hdr {
+				continue
+			}
+			out = append(out, [2]region{ss[i], ss[j]})
+		}
+	}
+	return out
 }
 
 // overlaps returns the pairs (a in as, b in bs) that share memory.
@@ -335,7 +393,7 @@ func overlaps(as, bs []region) [][2]region {
 // mutateLeaves flips, one at a time, every scalar reachable from *ptr through exported fields (bytes of byte
 // slices and arrays are sampled at both ends and the middle); after each flip it calls probe(path, viaPtr); the flip
 // is undone afterwards so that shared memory is left as it was.
-func mutateLeaves(ptr any, probe func(path string, viaPtr bool)) int {
+func mutateLeaves(ptr any, shared map[uintptr]bool, probe func(path string, viaPtr bool)) int {
 	n := 0
 	seen := map[visitKey]bool{}
 	var walk func(v reflect.Value, path string, via bool)
@@ -404,7 +462,7 @@ func mutateLeaves(ptr any, probe func(path string, viaPtr bool)) int {
 				return
 			}
 			seen[k] = true
-			walk(v.Elem(), path+"->", true)
+			walk(v.Elem(), path+"->", via || shared[uintptr(v.UnsafePointer())])
 		case reflect.Interface:
 			if v.IsNil() {
 				return
@@ -412,7 +470,7 @@ func mutateLeaves(ptr any, probe func(path string, viaPtr bool)) int {
 			// the dynamic value of an interface is not addressable; reach what it points to
 			e := v.Elem()
 			if e.Kind() == reflect.Ptr {
-				walk(e, path+".("+e.Type().String()+")", true)
+				walk(e, path+".("+e.Type().String()+")", via)
 			} else {
 				walkRO(e, path+".("+e.Type().String()+")", walk)
 			}
